@@ -34,6 +34,7 @@ func (e targetRuntimeError) Error() string { return "runtime error: " + e.msg }
 type nonTermination struct {
 	fn    string
 	depth int
+	loop  bool // a loop-iteration bound (verifnd.LoopLimit) rather than a recursion bound
 }
 
 func isEngineSignal(r any) bool {
@@ -126,6 +127,10 @@ type pathCtx struct {
 	inInit   int
 	secCache map[int64]value
 	active   map[string]int
+	// loopLimits: short function name -> max entries of any one basic block per
+	// activation (set from the harness by verifnd.LoopLimit; exceeding it on a
+	// feasible path is a termination violation, not a truncated path)
+	loopLimits map[string]int
 }
 
 func (p *pathCtx) outcomes() []int32 {
